@@ -292,7 +292,7 @@ def run(ctx):
         rj = json.load(open(ctx.replay))
         rp = rj["input"]
         if rj.get("kind") in ("check-free-cycle", "model-impl-disagree"):
-            shp, corpus = [], [("replay", rp["program"], rp.get("name"))]   # a static finding on an ordinary program
+            shp, corpus = [], [("session:replay" if rp.get("session") else "replay", rp["program"], rp.get("name"))]   # a static finding on an ordinary program
         else:
             shp, corpus = [("replay:" + rp.get("shape", ""), rp["program"])], []
         delays = [rp.get("delay_ms", 20)]
@@ -315,9 +315,14 @@ def run(ctx):
             label, src = _bcgen.gen_program(ctx.rng, 100000 + i)
             corpus.append(("gen:" + label, src, None))
 
+    # the same shapes compiled as a LATER input of an incremental session (what the REPL does for every input but the
+    # first: another top-level compiler with fresh global data); every check-free cycle there is reported
+    if not ctx.replay:
+        corpus += [("session:" + lab, src, None) for lab, src in shp]
     # ---- static leg
     reqs = [{"id": "s%d" % i, "src": src, "abort": True} for i, (lab, src) in enumerate(shp)]
-    reqs += [{"id": "c%d" % i, "src": src, "abort": True, **({"name": nm} if nm else {})} for i, (lab, src, nm) in enumerate(corpus)]
+    reqs += [{"id": "c%d" % i, "src": src, "abort": True, "session": lab.startswith("session:"), **({"name": nm} if nm else {})}
+             for i, (lab, src, nm) in enumerate(corpus)]
     dumps = _bc.dump_programs(reqs)
     lines, meta = [], []
     all_progs = [(lab, src, None, True) for lab, src in shp] + [(lab, src, nm, False) for lab, src, nm in corpus]
@@ -358,7 +363,8 @@ def run(ctx):
                     ctx.violation("model-impl-disagree", {"program": src, "correspondence": "ranking vs python static cycle search", "sig": sig},
                                   "lean reports the check-free cycle %s in %s, the python jump graph has none" % (r["cycle"][:6], f["name"]), no_input=True)
                 else:
-                    ctx.violation("check-free-cycle", {"program": src, "sig": sig, **({"name": nm, "context": c29.source_excerpt(f)} if nm else {})},
+                    ctx.violation("check-free-cycle", {"program": src, "sig": sig, **({"session": True} if lab.startswith("session:") else {}),
+                                                       **({"name": nm, "context": c29.source_excerpt(f)} if nm else {})},
                                   "function %s of %s has a cycle that executes no CHECK_ABORT/SELECT: %s"
                                   % (f["name"], lab, ">".join("%d:%d" % x for x in r["cycle"][:10])))
         elif r["kind"] in ("rejected", "bad"):
